@@ -176,6 +176,58 @@ func c13Scenarios(tier string) []*Scenario {
 			return "", "", fmt.Sprint(len(dgs), " datagrams")
 		}
 		out = append(out, sc4)
+		// M7: two goroutines allocate with the SAME new tag set at the same time (one of them loses the insert into the
+		// tag cache and has a converted slice to spare); then the reporter's tag slice pool is run down to what was
+		// given back last - the state every long-lived reporter reaches after some thousand tag sets - and a metric
+		// with other, longer tags is allocated. Values reported through the first two handles afterwards still carry
+		// the tags they were allocated with.
+		sc7 := &Scenario{Property: "C13", Name: "M7-concurrent-allocation-of-one-new-tag-set-then-pool-run-down-" + kind, BoundSet: true, Bound: tierInt(tier, 1, 2), FreeBound: tierInt(tier, 2, 3), Shards: 2}
+		sc7.Body = func(x *Run) {
+			s := newFastSink()
+			x.Vals["sink"] = s
+			x.Cleanup = append(x.Cleanup, s.close)
+			x.Vals["tmin"] = rt.NowNanos()
+			r, err := m3.NewReporter(m3.Options{HostPorts: []string{s.addr}, Service: "svc", Env: "test", CommonTags: c13CommonTags(0), Protocol: m3Proto(kind), MaxQueueSize: 8})
+			if err != nil {
+				x.failf("new-reporter", "%v", err)
+				return
+			}
+			same := map[string]string{"a": "b"}
+			var h [2]tally.CachedCount
+			t1 := rt.GoNamed("alloc1", func() { h[0] = r.AllocateCounter("n", cloneTags(same)) })
+			t2 := rt.GoNamed("alloc2", func() { h[1] = r.AllocateCounter("n", cloneTags(same)) })
+			t1.Join()
+			t2.Join()
+			x.Vals["left"] = m3.VerifDrainTagSlicePool(r, 1)
+			other := map[string]string{"x": "long-value-1", "y": "long-value-2", "z": "long-value-3"}
+			r.AllocateCounter("m", cloneTags(other)).ReportCount(3)
+			h[0].ReportCount(1)
+			h[1].ReportCount(2)
+			x.Vals["tmax"] = rt.NowNanos()
+			if err := r.Close(); err != nil {
+				x.failf("close-error", "%v", err)
+			}
+			pre, bcl, bdet := closeBarrier(kind, []*fastSink{s}, 3)
+			x.Vals["pre"] = pre[0]
+			if bcl != "" {
+				x.failf(bcl, "%s", bdet)
+			}
+		}
+		sc7.Check = func(x *Run, o *rt.Outcome) (string, string, string) {
+			s := x.Vals["sink"].(*fastSink)
+			dgs := s.readAvailable(append([][]byte{}, x.Vals["pre"].([][]byte)...))
+			got, cl, det := m3Collect(kind, dgs, x.Vals["tmin"].(int64), x.Vals["tmax"].(int64))
+			if cl != "" {
+				return cl, det, "viol"
+			}
+			want := []string{wantKey("n", 1, 1, 0, 0, map[string]string{"a": "b"}), wantKey("n", 1, 2, 0, 0, map[string]string{"a": "b"}),
+				wantKey("m", 1, 3, 0, 0, map[string]string{"x": "long-value-1", "y": "long-value-2", "z": "long-value-3"})}
+			if cl, det := compareMultisets(got, want); cl != "" {
+				return cl, det, "viol"
+			}
+			return "", "", fmt.Sprint(len(dgs), " datagrams, pool left at ", x.Vals["left"])
+		}
+		out = append(out, sc7)
 	}
 	return out
 }
